@@ -29,6 +29,9 @@ pub enum Ev {
     /// tee / manifest readers do this) or on a freshly spawned thread that is joined before read() returns (two calls
     /// overlapping in time: process-wide scratch state is contended at a point the reader controls).  Then delivers like Deliver(k).
     Nested { other_thread: bool, k: u32 },
+    /// Ok(0) once -- and data again on the next call (a tailed file, a terminal after ^D): legal for a reader.  A helper
+    /// may stop at the first Ok(0) or read on; either way the result must be the hash of everything it was handed.
+    SoftEof,
     /// the reader itself panics (unwinds through the helper): a caller-side crash in the middle of a call.  Nothing is
     /// judged about that call except that it unwinds; what is judged is the *next* calls (same thread and another
     /// thread): whatever process-wide or per-thread state the helper holds across `read()` must not stay poisoned.
@@ -240,6 +243,10 @@ impl SimReader<'_> {
                 } else {
                     Err(io::Error::new(ErrorKind::InvalidData, tlsh::GeneratorError::TooSmallInput))
                 }
+            }
+            Ev::SoftEof => {
+                self.fired_eof = self.pos < self.data.len();
+                Ok(0)
             }
             Ev::Eof => {
                 self.eof = true;
@@ -588,7 +595,7 @@ impl Scenario for C12 {
         }
         if eof && !script.is_empty() {
             let at = r.below(script.len() as u64 + 1) as usize;
-            script.insert(at, Ev::Eof);
+            script.insert(at, if r.chance(1, 4) { Ev::SoftEof } else { Ev::Eof });
         }
         if hard {
             let at = r.below(script.len() as u64 + 1) as usize;
@@ -748,6 +755,7 @@ impl Scenario for C12 {
                 Ev::Panic => "Panic".to_string(),
                 Ev::Hard(k) => format!("Hard({k})"),
                 Ev::Eof => "Eof".to_string(),
+                Ev::SoftEof => "SoftEof".to_string(),
                 Ev::Lie(k) => format!("Lie({k})"),
                 Ev::Nested { other_thread, k } => format!("Nested({},{k})", *other_thread as u8),
             })
@@ -769,6 +777,8 @@ impl Scenario for C12 {
                 Ev::Eintr
             } else if s == "Eof" {
                 Ev::Eof
+            } else if s == "SoftEof" {
+                Ev::SoftEof
             } else if s == "Panic" {
                 Ev::Panic
             } else if s.starts_with("Deliver") {
